@@ -6,6 +6,7 @@ import Proofs.DkgJoint
 import Proofs.DkgShare
 import Proofs.DkgAgree
 import Proofs.DkgNonzero
+import Proofs.DkgJointAgree
 import Driver.Dkg
 
 /-! # C07 — DKG: honest participants agree on the verdict and on consistent keys
@@ -19,8 +20,9 @@ the dealer of one of the `n` parallel instances (`joint_end_order_independent`).
 participants** of one Feldman-VSS-Qual execution is `honest_receivers_agree` (`Proofs/DkgAgree.lean`): two honest
 participants that are not the dealer leave `End` with the same public result under reliable broadcast and round
 synchrony, for every behaviour of everybody else and every delivery order. What remains by correspondence only:
-lifting that theorem to the `n` parallel instances of Joint-Feldman (per instance it applies as it is when the
-dealer of the instance is not one of the two participants). -/
+the two instances of a Joint-Feldman execution whose dealer is one of the two participants themselves (there the
+comparison is between the dealer's own view and a receiver's; `honest_dealer_never_disqualified` of C08 covers the
+receiver's side); every other instance is covered by `joint_instances_agree`. -/
 
 namespace Props.C07
 open Model Model.Dkg
@@ -224,6 +226,35 @@ theorem honest_receivers_same_end (hr : ReadsNonzero O) (size threshold dealer m
   agreement_end hr size threshold dealer ma mb hd hs hma hmb hmad hmbd hab ra1 ra2 ra3 rb1 rb2 rb3
     ba1 ba2 ba3 bb1 bb2 bb3 n1 n2 n3
 
+open Proofs.DkgCommute Proofs.DkgAgree in
+/-- **Joint-Feldman, instance by instance**: in Joint-Feldman every broadcast is handed to all `n` instances; for
+    the instance of dealer `d` a broadcast of another participant `A ≠ d` is ignored unless it is `A`'s complaint
+    against `d` (`irrelevant_noop`: its own vector, its answers, its complaints against other dealers change
+    nothing). With the network hypothesis stated on the *full* broadcast streams (`NetD`: among what one honest
+    participant receives from the other in a round, the complaints against `d` are exactly what the other's instance
+    of `d` broadcast), two honest participants end every instance whose dealer is neither of them — honest or not —
+    with the same public result: the same verdict on the dealer and the same contribution to the group key -/
+theorem joint_instances_agree (size threshold dealer ma mb : Nat) (hd : dealer < size) (hs : size ≤ 256)
+    (hma : ma < size) (hmb : mb < size) (hmad : ma ≠ dealer) (hmbd : mb ≠ dealer) (hab : ma ≠ mb)
+    (ra1 ra2 ra3 rb1 rb2 rb3 : List Dl)
+    (ba1 : ∀ e ∈ ra1, e.sender < size) (ba2 : ∀ e ∈ ra2, e.sender < size) (ba3 : ∀ e ∈ ra3, e.sender < size)
+    (bb1 : ∀ e ∈ rb1, e.sender < size) (bb2 : ∀ e ∈ rb2, e.sender < size) (bb3 : ∀ e ∈ rb3, e.sender < size)
+    (n1 : NetD dealer ma mb ra1 rb1 (bR1 (fresh O size threshold ma dealer) ra1) (bR1 (fresh O size threshold mb dealer) rb1))
+    (n2 : NetD dealer ma mb ra2 rb2 (bR2 (fresh O size threshold ma dealer) ra1 ra2)
+      (bR2 (fresh O size threshold mb dealer) rb1 rb2))
+    (n3 : NetD dealer ma mb ra3 rb3 (bR3 (fresh O size threshold ma dealer) ra1 ra2 ra3)
+      (bR3 (fresh O size threshold mb dealer) rb1 rb2 rb3)) :
+    pubRes (final (fresh O size threshold ma dealer) ra1 ra2 ra3) =
+      pubRes (final (fresh O size threshold mb dealer) rb1 rb2 rb3) :=
+  agreement_instance size threshold dealer ma mb hd hs hma hmb hmad hmbd hab ra1 ra2 ra3 rb1 rb2 rb3
+    ba1 ba2 ba3 bb1 bb2 bb3 n1 n2 n3
+
+open Proofs.DkgCommute Proofs.DkgAgree in
+/-- the broadcasts of `A` an instance of another dealer ignores: everything but `A`'s complaint against that dealer -/
+theorem joint_irrelevant_broadcasts_ignored (s : St O) (hme : s.me ≠ s.dealer) (A : Nat) (hAd : A ≠ s.dealer)
+    (hd : s.dealer < 256) (e : Dl) (h : irrelevant A s.dealer e = true) :
+    Proofs.DkgCommute.step s e = s ∧ bcasts (stepOuts s e) = [] := irrelevant_noop s hme A hAd hd e h
+
 open Proofs.DkgAgree in
 /-- the BLS12-381 instance the driver runs against the implementation never reads a zero scalar from the wire -/
 theorem reads_nonzero_bls : ReadsNonzero Driver.Dkg.blsOps := by
@@ -354,3 +385,5 @@ end Props.C07
 #print axioms Props.C07.shadow_simulation
 #print axioms Props.C07.honest_receivers_same_end
 #print axioms Props.C07.reads_nonzero_bls
+#print axioms Props.C07.joint_instances_agree
+#print axioms Props.C07.joint_irrelevant_broadcasts_ignored
